@@ -174,6 +174,47 @@ fn dispatch(cmd: &str, a: &[&str]) -> Result<Vec<String>, String> {
             }
             Ok(out)
         }
+        "parser" => {
+            // fn name, input bytes [, boundary]: calls the named library parser; the reply only says whether it returned
+            let f = ustr(a[0]); let raw = unhex(a[1]);
+            let text = String::from_utf8_lossy(&raw).to_string();
+            let r: String = match f.as_str() {
+                "RawUnprocessedJSONArray::split_into_vector_of_strings" => format!("{:?}", crate::json::array::RawUnprocessedJSONArray::split_into_vector_of_strings(text).is_ok()),
+                "JSONArrayOfIntegers::parse_as_list_i64" => format!("{:?}", crate::json::array::integer::JSONArrayOfIntegers::parse_as_list_i64(text).is_ok()),
+                "JSONArrayOfStrings::parse_as_list_string" => format!("{:?}", crate::json::array::string::JSONArrayOfStrings::parse_as_list_string(text).is_ok()),
+                "JSONArrayOfBooleans::parse_as_list_bool" => format!("{:?}", crate::json::array::boolean::JSONArrayOfBooleans::parse_as_list_bool(text).is_ok()),
+                "JSON::parse_as_properties" => format!("{:?}", crate::json::object::JSON::parse_as_properties(text).is_ok()),
+                "JSONProperty::parse" => format!("{:?}", crate::json::property::JSONProperty::parse(&text).is_ok()),
+                "Base64::decode" => format!("{:?}", crate::core::base64::Base64::decode(text).is_ok()),
+                "Header::parse_header" => format!("{:?}", Header::parse_header(&text).is_ok()),
+                "ContentDisposition::parse" => format!("{:?}", crate::header::content_disposition::ContentDisposition::parse(&text).is_ok()),
+                "Range::_parse_raw_content_range_header_value" => format!("{:?}", crate::range::Range::_parse_raw_content_range_header_value(&text).is_ok()),
+                "UrlPath::extract_parts_from_pattern" => format!("{:?}", crate::url::path::UrlPath::extract_parts_from_pattern(&text).is_ok()),
+                "URL::parse" => format!("{:?}", crate::url::URL::parse(&text).is_ok()),
+                "Request::parse" => format!("{:?}", Request::parse(&raw).is_ok()),
+                "Response::parse" => format!("{:?}", crate::response::Response::parse(&raw).is_ok()),
+                "FormMultipartData::parse" => format!("{:?}", crate::body::multipart_form_data::FormMultipartData::parse(&raw, ustr(a[2])).is_ok()),
+                "FormUrlEncoded::parse" => format!("{:?}", crate::body::form_urlencoded::FormUrlEncoded::parse(raw.clone()).is_ok()),
+                "Range::parse_multipart_body" => { let mut c = std::io::Cursor::new(&raw[..]); format!("{:?}", crate::range::Range::parse_multipart_body(&mut c, vec![]).is_ok()) }
+                _ => return Err(format!("unknown parser {}", f)),
+            };
+            Ok(vec![hex(r.as_bytes())])
+        }
+        "uri_roundtrip" => {
+            let t = ustr(a[0]);
+            let enc = crate::url::URL::percent_encode(&t);
+            let dec = crate::url::URL::percent_decode(&enc);
+            Ok(vec![hex(enc.as_bytes()), hex(dec.as_bytes())])
+        }
+        "query_roundtrip" => {
+            let mut m = std::collections::HashMap::new();
+            m.insert(ustr(a[1]), ustr(a[2]));
+            let q = crate::url::URL::build_query(m);
+            let parsed = if ustr(a[0]) == "form" { crate::body::form_urlencoded::FormUrlEncoded::parse(q.as_bytes().to_vec())? } else { crate::url::URL::parse_query(&q) };
+            let mut out = vec![hex(q.as_bytes())];
+            for (k, v) in parsed { out.push(hex(k.as_bytes())); out.push(hex(v.as_bytes())); }
+            Ok(out)
+        }
         "process_seq" => {
             // size, then request bytes...: every request is handled by Server::process on this same thread, in order
             let size: i64 = a[0].parse().unwrap();
